@@ -1311,6 +1311,8 @@ def make_case(rng, key, kind):
     if is128:
         for _ in range(r.choice([1, 2, 3])):
             kinds.insert(r.randrange(len(kinds) + 1), r.choice(['page', 'page', 'ay']))
+        if r.random() < .4:
+            kinds.insert(r.randrange(len(kinds) + 1), 'halt')        # 128K frame: 70908 T-states, INT active for 36
     prog = g.program(kinds)
     if prog['end'] - org > 900:
         return None
@@ -1339,7 +1341,7 @@ def make_case(rng, key, kind):
     case = {'key': key, 'kind': kind, 'is128': 1 if is128 else 0, 'p7': p7, 'fill': fill, 'prog': prog, 'handlers': handlers,
             'ov': [[a, b] for a, b in sorted(ov.items())], 'ins': [[a, len(bs)] for a, t, bs in prog['ins']],
             'ops': s.ops, 'asm': 0 if has_audio else 1, 'html': 1, 'exc': '', 'text': text, 'place': list(place),
-            'impl': 'py' if r.random() < .3 else 'c', 'classes': sorted(s.classes)}
+            'impl': 'py' if r.random() < .2 else 'c', 'classes': sorted(s.classes)}
     case['classes'].append('impl:' + case['impl'])
     return case
 
